@@ -196,3 +196,24 @@ Example C12_outside_domain :
   go_result (z2key64m 0 36 3 25 0) = Some (Ok (0, 0)) /\ go_result (key2z64m 0 3 36 25 0) = Some (Ok (0, 2 ^ 33 - 1)) /\
   go_result (z2key64m 0 (-1) 3 25 0) = Some Err /\ go_result (z2key64m 0 (- 2 ^ 63) 3 25 0) = None /\ go_result (key2z64m 0 3 (- 2 ^ 63) 25 0) = None.
 Proof. vm_compute. repeat split. Qed.
+
+(* ---- tie to the source by regeneration (DESIGN.md 4.2): the altitude-key kernels translated from /repo's current source
+   (generated/Generated.v) are the AltKeyCore models the theorems above are stated on ---- *)
+From SIDGen Require Generated.
+From SID Require GenTac GenEqAlt.
+Theorem C12_generated_forward_is_the_model : forall f z out E O,
+  Generated.ConvertZToMinMaxAltitudekey f z out E O = GenTac.enc_zz (AltKeyCore.z2key f z out E O).
+Proof. exact GenEqAlt.gen_ConvertZToMinMaxAltitudekey_eq. Qed.
+Print Assumptions C12_generated_forward_is_the_model.
+Theorem C12_generated_backward_is_the_model : forall k kz out E O,
+  Generated.ConvertAltitudekeyToMinMaxZ k kz out E O = GenTac.enc_zz (AltKeyCore.key2z k kz out E O).
+Proof. exact GenEqAlt.gen_ConvertAltitudekeyToMinMaxZ_eq. Qed.
+Print Assumptions C12_generated_backward_is_the_model.
+Theorem C12_generated_validateIndexExists_is_the_model : forall i z neg,
+  Generated.validateIndexExists i z neg = (negb (AltKeyCore.index_exists i z neg), AltKeyCore.index_exists i z neg).
+Proof. exact GenEqAlt.gen_validateIndexExists_eq. Qed.
+Print Assumptions C12_generated_validateIndexExists_is_the_model.
+Theorem C12_generated_min_helper_is_the_model : forall f z out E O,
+  Generated.convertZToMinAltitudekey f z out E O = GenTac.enc_z (AltKeyCore.z2minkey f z out E O).
+Proof. exact GenEqAlt.gen_convertZToMinAltitudekey_eq. Qed.
+Print Assumptions C12_generated_min_helper_is_the_model.
